@@ -382,8 +382,38 @@ def c05_client(ck):
             n += 1
             lines.append("%s client %s | new new new more:0 %s call:1" % (cid, hx(inbox), " ".join(["next:0"] * 7)))
             mid[cid] = (pos, stream, fin)
+    # other call objects trying to use the connection while a stream is running (from the loop body, or another thread): the
+    # stream's owner still gets every reply in order, the others are refused and get none of them
+    inter = {}
+    for k in (2, 3, 5):
+        for _ in range(6 if quick else 40):
+            stream = [{"continues": True, "parameters": {"i": i}} for i in range(k)] + [{"parameters": {"final": True}}]
+            ops = ["more:0"]
+            for i in range(k + 1):
+                for _j in range(rng.randint(0, 2)):
+                    ops.append("%s:%d" % (rng.choice(["call", "more", "oneway", "next", "recv"]), rng.randint(1, 2)))
+                ops.append("next:0")
+            ops.append("next:0")
+            cid = "x%d" % n
+            n += 1
+            lines.append("%s client %s | new new new %s" % (cid, hx(b"".join(fr(x) for x in stream)), " ".join(ops)))
+            inter[cid] = (stream, ops)
     impl, model = run_client_cases(ck, lines, model_ok)
     nd = 0
+    for cid, (stream, ops) in inter.items():
+        ck.case("interloper|" + " ".join(ops))
+        ck.count("client_iteration_with_interlopers")
+        a = impl[cid]
+        if "outs=" not in a:
+            ck.failures.append({"what": "client iteration: no result", "result": a[:200]})
+            continue
+        outs = [parse_out(x) for x in fields(a)["outs"].split(";")]
+        own = [o for op, o in zip(ops, outs) if op == "next:0"]
+        others = [o for op, o in zip(ops, outs) if not op.endswith(":0")]
+        want = [loads_tuple(expected_outcome(y)) for y in stream] + [("none",)]
+        if own != want or any(o[0] == "ok" for o in others):
+            ck.failures.append({"what": "while a more call was being iterated, other call objects on the same connection were not refused / took replies of the stream: "
+                                        "the iteration did not yield every reply in order", "stream": stream, "ops": ops, "outs": [list(o) for o in outs]})
     for cid, (pos, stream, fin) in mid.items():
         ck.case("miderr|%d|%s" % (pos, json.dumps(fin)))
         ck.count("client_iteration_mid_stream_error")
